@@ -354,7 +354,7 @@ fn last_connected_sample(trace: &Trace, tr: usize) -> Option<bool> {
 }
 
 pub fn run(ctx: &Ctx) -> i32 {
-    let cases = ctx.tier.pick(60_000, 2_000_000);
+    let cases = ctx.tier.pick(240_000, 6_000_000);
     let agg = run_prop(ctx, "case-c14", 16, cases, strategy, |case: &Case| {
         let out = eval(case);
         let mut classes = Vec::new();
